@@ -699,6 +699,11 @@ func generate(repo, out string) error {
 		return err
 	}
 
+	// 4v. the `execute` methods of the expression structs, tempColName and QFrame.Eval as terms of QF.EV (evalast.go)
+	if err := writeIfChanged(filepath.Join(out, "EvalFns.lean"), []byte(evalFnsLean(repo, root))); err != nil {
+		return err
+	}
+
 	// 4m. the three writers of qframe.go (ToJSON, ToCSV, String) as terms of QF.JS / QF.CS / QF.PS (wast.go)
 	if err := writeIfChanged(filepath.Join(out, "Writers.lean"), []byte(writersLean(repo, root, strs))); err != nil {
 		return err
